@@ -2,7 +2,7 @@
    equate it with (ExtrOcamlBasic only; no Extract Constant). *)
 From Coq Require Extraction.
 From Coq Require Import ExtrOcamlBasic.
-From LibFtp Require Import Bytes Decimal Reply Typed Endpoint Ascii Framing FramingSpec Cmdline.
+From LibFtp Require Import Bytes Decimal Reply Typed Endpoint Ascii Framing FramingSpec Cmdline DataConn Client.
 Extraction Language OCaml.
 Set Extraction Optimize.
 Extraction "model.ml"
@@ -14,4 +14,5 @@ Extraction "model.ml"
   (* Ascii *)   aread drain istart owrites sink_content to_crlf from_crlf
   (* Framing *) recv_n fixed_cfg pinned_cfg find_eol strip_eol render expected wf_reply
   (* Cmdline *) parse_command verb_name render_args lower all_commands
+  (* Client *)  steps step init_world held data_recv data_send
   (* Typed *)   parse_size parse_datetime parse_file_list is_time_val spec_file_list.
